@@ -18,6 +18,8 @@ Flow level (children of one composite are numbers, an emitting channel is 4*node
   sconn <sig> <node> <0 run | 1 accumulate_and_run>    signal connection (newest first on both sides)
   sdisc <sig> <node> <0|1>
   starters <i> …
+  mconfig <P|R> <ui node> …                     the composite is a macro: its constructor's treatment of a hand-made wiring
+  quiet <i>                                     the wrapped function of child i is not instrumented: leave it out of `calls`
   run <fuel>                                    prints the observations of one composite run
 -/
 open PwVerif PwVerif.Signal PwVerif.Proto
@@ -33,14 +35,14 @@ structure St where
   cache : Nat → Bool
   failAt : Nat → List Nat
   slots : Nat → List Slot
-  conns : Sig → List Recv
-  accConns : Nat → List Sig
+  w : Wiring
   starters : List Nat
+  quiet : List Nat
 
 def init : St :=
   { lab := id, acc := { conns := [], received := [] }, anyc := [],
     n := 0, kinds := fun _ => .term 0, cache := fun _ => false, failAt := fun _ => [],
-    slots := fun _ => [], conns := fun _ => [], accConns := fun _ => [], starters := [] }
+    slots := fun _ => [], w := Wiring.empty, starters := [], quiet := [] }
 
 def insertSorted (x : Nat) : List Nat → List Nat
   | [] => [x]
@@ -92,7 +94,7 @@ def St.nodes (s : St) : Nat → Node := fun i =>
   { kind := s.kinds i, slots := s.slots i, useCache := s.cache i, failAt := s.failAt i }
 
 def St.fin (s : St) : FinGraph :=
-  { conns := (List.range (4 * s.n)).map s.conns, accConns := (List.range s.n).map s.accConns,
+  { conns := (List.range (4 * s.n)).map s.w.out, accConns := (List.range s.n).map s.w.accIn,
     labs := List.range (4 * s.n), starters := s.starters }
 
 def modifyNth {α} (l : List α) (k : Nat) (f : α → α) : List α :=
@@ -111,12 +113,12 @@ def runObs (s : St) (fuel : Nat) : List String :=
     s!"fired {showNats r.fired}",
     s!"exec {showNats st.execLog}",
     s!"done {showNats st.doneLog}",
-    "calls " ++ joinOrDash (st.callLog.map fun (i, a) => s!"{i}(" ++ ",".intercalate (a.map showVal) ++ ")"),
+    "calls " ++ joinOrDash ((st.callLog.filter fun p => !s.quiet.contains p.1).map fun (i, a) => s!"{i}(" ++ ",".intercalate (a.map showVal) ++ ")"),
     "out " ++ joinOrDash (ids.map fun i => s!"{i}={showVal (st.out i)}"),
     s!"failed {showNats (ids.filter st.failed)}",
     s!"errs {showNats (sortNats (dedup r.errs))}",
     s!"queue {r.queue.length}",
-    "rec " ++ joinOrDash ((ids.filter fun i => !(s.accConns i).isEmpty).map fun i =>
+    "rec " ++ joinOrDash ((ids.filter fun i => !(s.w.accIn i).isEmpty).map fun i =>
       s!"{i}:{showNats (sortNats (r.received i))}") ]
 
 def parseTrig : String → Option Bool
@@ -206,11 +208,7 @@ def step (s : St) (ws : List String) : St × List String :=
     match sg.toNat?, r.toNat?, a.toNat? with
     | some sg, some r, some a =>
       if sg < 4 * s.n && r < s.n && a ≤ 1 then
-        let rv : Recv := { node := r, acc := a == 1 }
-        if (s.conns sg).contains rv then (s, [])
-        else
-          ({ s with conns := updF s.conns sg (rv :: s.conns sg),
-                    accConns := if a == 1 then updF s.accConns r (sg :: s.accConns r) else s.accConns }, [])
+        ({ s with w := s.w.connect sg { node := r, acc := a == 1 } }, [])
       else (s, ["bad-op"])
     | _, _, _ => (s, ["bad-op"])
   | ["sdisc", sg, r, a] =>
@@ -218,10 +216,25 @@ def step (s : St) (ws : List String) : St × List String :=
     | some sg, some r, some a =>
       if sg < 4 * s.n && r < s.n && a ≤ 1 then
         let rv : Recv := { node := r, acc := a == 1 }
-        ({ s with conns := updF s.conns sg ((s.conns sg).erase rv),
-                  accConns := if a == 1 then updF s.accConns r ((s.accConns r).erase sg) else s.accConns }, [])
+        ({ s with w := { out := updF s.w.out sg ((s.w.out sg).erase rv),
+                         runIn := if a == 1 then s.w.runIn else updF s.w.runIn r ((s.w.runIn r).erase sg),
+                         accIn := if a == 1 then updF s.w.accIn r ((s.w.accIn r).erase sg) else s.w.accIn } }, [])
       else (s, ["bad-op"])
     | _, _, _ => (s, ["bad-op"])
+  | "mconfig" :: v :: ui =>
+    -- `Macro._configure_graph_execution`: P = as pinned (disconnect + reconnect), R = repaired (lists kept);
+    -- then the UI nodes are put upstream of the starting nodes
+    match (if v = "P" then some true else if v = "R" then some false else none), nats ui with
+    | some pinned, some ui =>
+      if ui.all (· < s.n) && !s.starters.isEmpty then
+        let w1 := s.w.reconfigure pinned (List.range s.n)
+        ({ s with w := w1.putUiFirst ui s.starters, starters := uiStarters ui s.starters }, [])
+      else (s, ["bad-op"])
+    | _, _ => (s, ["bad-op"])
+  | ["quiet", i] =>
+    match i.toNat? with
+    | some i => if i < s.n then ({ s with quiet := i :: s.quiet }, []) else (s, ["bad-op"])
+    | none => (s, ["bad-op"])
   | "starters" :: l =>
     match nats l with
     | some l => if l.all (· < s.n) then ({ s with starters := l }, []) else (s, ["bad-op"])
